@@ -175,6 +175,10 @@ public:
             io_error( "Invalid BMP info header." );
         }
 
+        io_error_if( _info._bits_per_pixel > 32
+                   , "Invalid BMP bits per pixel."
+                   );
+
         // the readers compute row sizes as width * bits per pixel (at most 32) in 32 bit arithmetic
         io_error_if(  _info._width < 0
                    || _info._width > (std::numeric_limits< bmp_image_width::type >::max)() / 32
@@ -193,7 +197,15 @@ public:
             entries = 1u << this->_info._bits_per_pixel;
         }
 
-        _palette.resize( entries, rgba8_pixel_t(0, 0, 0, 0));
+        // The pixel data can hold any index that fits into the bits per pixel, whatever number
+        // of colors the header declares: keep an entry for each of them.
+        int const max_entries = 1 << this->_info._bits_per_pixel;
+
+        io_error_if( entries < 0 || entries > max_entries
+                   , "Invalid number of colors in BMP palette."
+                   );
+
+        _palette.resize( max_entries, rgba8_pixel_t(0, 0, 0, 0));
 
 		for( int i = 0; i < entries; ++i )
         {
